@@ -126,7 +126,24 @@ func qres(q h.Query) string {
 	if q.Err != "" {
 		return q.Err
 	}
-	if q.Kind == "data" || q.Kind == "meta" {
+	if q.Kind == "meta" && len(q.Nums) == 20 {
+		// which typed accessor answered, and how the others refused
+		for _, c := range []struct {
+			i    int
+			name string
+		}{{8, "partition"}, {11, "signature"}, {14, "crypto"}, {17, "sbom"}, {19, "oci-digest"}} {
+			switch q.Nums[c.i] {
+			case 0:
+				return "Ok/" + c.name
+			case 2:
+				return "Ok/" + c.name + "-hash-unsupported"
+			case 3:
+				return "Ok/" + c.name + "-malformed"
+			}
+		}
+		return "Ok/untyped"
+	}
+	if q.Kind == "data" || q.Kind == "meta" || q.Kind == "header" {
 		return "Ok"
 	}
 	switch len(q.IDs) {
